@@ -2,7 +2,7 @@
 From Coq Require Import List NArith ZArith Lia Bool Arith String.
 From Coq Require Import ZifyN ZifyNat ZifyBool.
 From Snow Require Import Lib.Wire Lib.AmpPathUtil Model.B64Url Model.AmpPath Model.CacheURL Model.Rendezvous.
-From Snow Require Import Proofs.AmpPathProofs.
+From Snow Require Import Proofs.AmpPathProofs Proofs.CacheURLProofs.
 Import ListNotations.
 Open Scope N_scope.
 Notation length := List.length.
@@ -233,3 +233,125 @@ Section Broker.
     amp_handler client_offers armor decode_error_response (AMP_ROUTE ++ p) = {| h_status := 200; h_body := armor r |}.
   Proof. intros p e r Hd Hr. unfold amp_handler. rewrite strip_prefix_app, Hd, Hr. reflexivity. Qed.
 End Broker.
+
+(* ---------- end to end: client -> AMP cache URL -> broker's AMP route ---------- *)
+
+Section EndToEnd.
+  Variable to_unicode : bytes -> option bytes.
+  Variable to_ascii : bytes -> option bytes.
+  Variable sha256 : bytes -> bytes.
+  Variable h34 : bytes -> bool.
+
+  Lemma upto_last_snoc : forall sep l, upto_last sep (l ++ [sep]) = l ++ [sep].
+  Proof.
+    intros sep. induction l as [|c l IH]; cbn [app upto_last].
+    - rewrite N.eqb_refl. reflexivity.
+    - rewrite IH. destruct (l ++ [sep]) eqn:E; [destruct l; discriminate|reflexivity].
+  Qed.
+
+  Lemma u_encode_nonempty : forall d, d <> [] -> u_encode d <> [].
+  Proof. intros [|a [|b [|c r]]] H; try congruence; cbn [u_encode]; discriminate. Qed.
+
+  Lemma dot_not_in_alphabet : ~ in_alphabet DOTC.
+  Proof. unfold in_alphabet. vm_compute. congruence. Qed.
+
+  Lemma alphabet_seg_normal : forall s, s <> [] -> Forall in_alphabet s -> normal_seg s.
+  Proof.
+    intros s Hne F. rewrite Forall_forall in F. repeat split; auto.
+    - intros H. apply (slash_not_in_alphabet (F _ H)).
+    - intros E. subst. apply dot_not_in_alphabet. apply F. left. reflexivity.
+    - intros E. subst. apply dot_not_in_alphabet. apply F. left. reflexivity.
+  Qed.
+
+  (* the two segments of an encoded path *)
+  Definition enc_seg1 (cb : bytes) : bytes := ZERO_CH :: u_encode cb.
+
+  Lemma enc_seg1_normal : forall cb, normal_seg (enc_seg1 cb).
+  Proof.
+    intros cb. apply alphabet_seg_normal; [discriminate|].
+    apply Forall_cons; [unfold in_alphabet; vm_compute; congruence|apply u_encode_alphabet].
+  Qed.
+
+  Lemma encode_path_segments : forall cb data,
+    SLASHC :: encode_path cb data = abs_path [enc_seg1 cb; u_encode data].
+  Proof.
+    intros. unfold encode_path, encode_path_with_pad, abs_path, enc_seg1. cbn [flat_map app].
+    rewrite app_nil_r. reflexivity.
+  Qed.
+
+  Definition amp_segs (cb data : bytes) : list bytes :=
+    [bs "amp"%string; bs "client"%string; enc_seg1 cb; u_encode data].
+
+  Lemma amp_segs_normal : forall cb data, data <> [] -> Forall normal_seg (amp_segs cb data).
+  Proof.
+    intros cb data H. unfold amp_segs.
+    apply Forall_cons; [repeat split; try discriminate; vm_compute; intuition discriminate|].
+    apply Forall_cons; [repeat split; try discriminate; vm_compute; intuition discriminate|].
+    apply Forall_cons; [apply enc_seg1_normal|].
+    apply Forall_cons; [|apply Forall_nil].
+    apply alphabet_seg_normal; [apply u_encode_nonempty; assumption|apply u_encode_alphabet].
+  Qed.
+
+  Lemma abs_amp_segs : forall cb data, abs_path (amp_segs cb data) = AMP_ROUTE ++ encode_path cb data.
+  Proof.
+    intros. unfold abs_path, amp_segs, enc_seg1, encode_path, encode_path_with_pad. cbn [flat_map]. rewrite app_nil_r.
+    reflexivity.
+  Qed.
+
+  (* broker base path "/b1/…/bk/" (k >= 0): the AMP endpoint URL's path *)
+  Lemma amp_pub_path : forall b bsegs cb data,
+    b_epath b = abs_path bsegs ++ [SLASHC] ->
+    p_epath (amp_pub_url b cb data) = abs_path (bsegs ++ amp_segs cb data).
+  Proof.
+    intros b bsegs cb data Hb. unfold amp_pub_url. cbn [p_epath]. unfold resolve_rel. rewrite Hb.
+    rewrite upto_last_snoc.
+    assert (E : (abs_path bsegs ++ [SLASHC]) ++ AMP_PREFIX ++ encode_path cb data = abs_path (bsegs ++ amp_segs cb data)).
+    { unfold abs_path. rewrite flat_map_app. rewrite <- app_assoc. f_equal.
+      unfold amp_segs, enc_seg1, encode_path, encode_path_with_pad. cbn [flat_map]. rewrite app_nil_r.
+      reflexivity. }
+    rewrite E. unfold lead_slash. destruct bsegs; reflexivity.
+  Qed.
+
+  (* Through an AMP cache: the request path is
+       /<cache path>/c[/s]/<broker host>/<broker path>/amp/client/0<pad>/<base64url(poll)>
+     and what follows the broker's /amp/client/ route decodes to the poll. *)
+  Lemma amp_cache_end_to_end : forall b cu csegs bsegs (trailing : bool) front cb data q,
+    wf_bytes data -> data <> [] ->
+    Forall normal_seg csegs -> Forall normal_seg bsegs ->
+    c_epath cu = abs_path csegs ++ (if trailing then [SLASHC] else []) ->
+    b_epath b = abs_path bsegs ++ [SLASHC] ->
+    b_hostname b <> [DOTC] -> b_hostname b <> [DOTC; DOTC] ->
+    amp_request to_unicode to_ascii sha256 h34 b (Some cu) front cb data = Some q ->
+    q_path q = abs_path (csegs ++ middle (amp_pub_url b cb data) ++ bsegs ++ amp_segs cb data) /\
+    (exists pre, q_path q = pre ++ AMP_ROUTE ++ encode_path cb data) /\
+    decode_path (encode_path cb data) = POk data.
+  Proof.
+    intros b cu csegs bsegs trailing front cb data q W Hne Fc Fb Hc Hb Hd1 Hd2 Hq.
+    unfold amp_request in Hq.
+    destruct (cache_url to_unicode to_ascii sha256 h34 (amp_pub_url b cb data) cu (bs "c"%string)) as [r|] eqn:E; [|discriminate].
+    apply cache_url_some in E. destruct E as [_ [_ [_ [_ [Hh [_ [_ [_ Er]]]]]]]].
+    assert (Fp : Forall normal_seg (bsegs ++ amp_segs cb data)).
+    { apply Forall_app. split; [assumption|apply amp_segs_normal; assumption]. }
+    pose proof (amp_pub_path b bsegs cb data Hb) as Hp.
+    destruct (cache_path_shape (amp_pub_url b cb data) cu csegs (bsegs ++ amp_segs cb data) trailing Fc Fp Hc Hp Hh Hd1 Hd2)
+      as [S1 S2].
+    assert (QP : q_path q = lead_slash (r_rawpath r)).
+    { inversion Hq. unfold with_front. destruct (beq front []); reflexivity. }
+    assert (P : q_path q = abs_path (csegs ++ middle (amp_pub_url b cb data) ++ bsegs ++ amp_segs cb data)).
+    { rewrite QP. subst r. cbn [r_rawpath]. destruct (c_epath cu) as [|c0 cp] eqn:Ecp.
+      - specialize (S2 eq_refl).
+        assert (csegs = []).
+        { destruct csegs as [|s ss]; [reflexivity|]. cbn in Hc. destruct trailing; discriminate. }
+        subst csegs. cbn [app]. rewrite <- S2.
+        assert (NS : forall x, SLASHC :: x = abs_path (middle (amp_pub_url b cb data) ++ bsegs ++ amp_segs cb data) ->
+                     lead_slash x = SLASHC :: x).
+        { intros x Hx. unfold middle in Hx. cbn in Hx. inversion Hx as [Hx']. reflexivity. }
+        apply NS. assumption.
+      - assert (Hn : c0 :: cp <> []) by discriminate. specialize (S1 Hn). rewrite S1.
+        destruct csegs as [|s ss]; [unfold middle|]; reflexivity. }
+    split; [exact P|]. split.
+    - rewrite P. exists (abs_path (csegs ++ middle (amp_pub_url b cb data) ++ bsegs)).
+      rewrite <- abs_amp_segs. unfold abs_path. rewrite <- flat_map_app. rewrite <- !app_assoc. reflexivity.
+    - apply path_roundtrip_encoder. assumption.
+  Qed.
+End EndToEnd.
